@@ -16,7 +16,13 @@ one object mention another is used (edge kinds, recorded per edge):
   next      `$next` as the start: stands for start + size of the previous
             physical field, so the field mentions everything that location mentions
   enumvalue enum value                     `VA1 = (Ee.VB0 == Ee.VB0 ? 1 : 0) + Ss.f`
-with the target qualifiers  :param (run-time parameter), :member (`b.v`, a
+  synth     the compiler-generated $size_in_bytes / $size_in_bits of a structure mentions what the
+            conditions, starts and sizes of its physical fields mention; $max_size_in_* and
+            $min_size_in_* mention $size_in_*.  These generated fields are nodes of the graph: fields
+            mention them locally (`$size_in_bytes [+1] UInt x`, `let t = $max_size_in_bytes`) and
+            across structures (`Sb.$size_in_bytes`), in acyclic and in cyclic ways.
+with the target qualifiers  :synth / :static-synth (a generated size field, local / of another
+structure),  :param (run-time parameter), :member (`b.v`, a
 member of a structure-typed field: the dependency is on `b`), :static
 (`Ss.f`, a field of another structure, possibly of an imported module), :enum.
 `[requires: ...]` attributes (on a field: `this` only; on a structure: any
@@ -73,21 +79,30 @@ class DepsModules:
         self.files = ["m%d.emb" % i for i in range(nmod)]
         self.nodes = []
         self.structs = []   # (module, name, params[Node], fields[Node])
+        self.synth = {}     # (module, name) -> [$size_in_X, $max_size_in_X, $min_size_in_X]
+        self.bits = {}      # (module, name) -> is it a `bits` type
         self.enums = []     # (module, name, values[Node])
         sc = ec = 0
         for m in range(nmod):
             for _ in range(r.randint(1, 1 + self.size) if m == 0 else r.randint(0, 2)):
                 sname = "S" + LETTERS[sc]
                 sc += 1
-                params = [Node("param", m, sname, "p%d" % i) for i in range(r.choice([0, 0, 1, 2]))]
+                bits = r.random() < 0.2
+                params = [] if bits else [Node("param", m, sname, "p%d" % i) for i in range(r.choice([0, 0, 1, 2]))]
                 nf = r.randint(2, 4 + 3 * self.size)
                 fields = []
                 for i in range(nf):
                     n = Node("field", m, sname, "%s%d" % (LETTERS[(sc - 1) % 26], i))
-                    n.fkind = r.choice(FKINDS)
+                    n.fkind = r.choice(["int", "int", "virtual"]) if bits else r.choice(FKINDS)
                     fields.append(n)
+                unit = "bits" if bits else "bytes"
+                synth = [Node("field", m, sname, "$%ssize_in_%s" % (pre, unit)) for pre in ("", "max_", "min_")]
+                for n in synth:
+                    n.fkind = "synthetic"
                 self.structs.append((m, sname, params, fields))
-                self.nodes += params + fields
+                self.synth[(m, sname)] = synth
+                self.bits[(m, sname)] = bits
+                self.nodes += params + fields + synth
             for _ in range(r.randint(0, 2)):
                 ename = "E" + LETTERS[ec]
                 ec += 1
@@ -102,16 +117,23 @@ class DepsModules:
             r.shuffle(ranks)
         for n, k in zip(self.nodes, ranks):
             n.rank = k
+        # a generated size field ranks just above the physical fields it is computed from, so that in
+        # the acyclic shapes only later-ranked objects mention it
+        for (m, sname, params, fields) in self.structs:
+            phys = [f.rank for f in fields if f.fkind != "virtual"]
+            base = (max(phys) if phys else -1) + 0.5
+            for n, d in zip(self.synth[(m, sname)], (0.0, 0.1, 0.2)):
+                n.rank = base + d
         self.choose_edges()
         if self.shape == "import":
             self.plant_import_cycle()
 
     def allowed(self, u, v):
-        if u.kind == "param":
+        if u.kind == "param" or u.fkind == "synthetic":
             return False
         if u.kind == "field" and v.kind in ("field", "param") and v.module == u.module and v.owner == u.owner:
             return True
-        if v.kind == "value" or (v.kind == "field" and v.fkind == "virtual"):
+        if v.kind == "value" or (v.kind == "field" and v.fkind in ("virtual", "synthetic")):
             return v.module == u.module or v.module in self.imports[u.module]
         return False
 
@@ -135,6 +157,8 @@ class DepsModules:
                 if r.random() < (density * (2.0 if local else 0.6)):
                     self.add_edge(u, v)
         self.planted_cycles = []
+        if not self.acyclic_shape() and r.random() < 0.5:
+            self.plant_size_uses()
         if self.shape == "self":
             for _ in range(r.randint(1, 3)):
                 c = [u for u in nodes if self.allowed(u, u)]
@@ -155,10 +179,28 @@ class DepsModules:
                 else:
                     self.plant_cycle(r.choice([2, 3, 4, 6]))
 
+    def plant_size_uses(self):
+        """Mention generated size fields from physical fields of the same structure, or of two structures
+        of one module mutually: a cycle when the mention lands in a condition, start or size."""
+        r = self.rng
+        for _ in range(r.randint(1, 3)):
+            (m, sname, params, fields) = r.choice(self.structs)
+            phys = [f for f in fields if f.fkind != "virtual"]
+            if not phys:
+                continue
+            if r.random() < 0.6:
+                self.add_edge(r.choice(phys), r.choice(self.synth[(m, sname)]))
+            else:
+                others = [t for t in self.structs if t[0] == m and t[1] != sname and any(f.fkind != "virtual" for f in t[3])]
+                if others:
+                    (m2, s2, p2, f2) = r.choice(others)
+                    self.add_edge(r.choice(phys), r.choice(self.synth[(m2, s2)]))
+                    self.add_edge(r.choice([f for f in f2 if f.fkind != "virtual"]), r.choice(self.synth[(m, sname)]))
+
     def pools(self):
         ps = []
         for (m, sname, params, fields) in self.structs:
-            ps.append(list(fields))
+            ps.append(list(fields))                   # (generated size fields take no chosen edges)
         for m in range(len(self.files)):
             pool = [n for n in self.nodes if n.module == m and
                     (n.kind == "value" or (n.kind == "field" and n.fkind == "virtual"))]
@@ -198,6 +240,8 @@ class DepsModules:
     def ref(self, u, v):
         """Text of a reference to node v inside node u (an integer-typed atom)."""
         if self.is_local(u, v):
+            if v.kind == "field" and v.fkind == "synthetic":
+                return v.name
             if v.kind == "field" and v.fkind == "array":
                 return "($present(%s) ? 1 : 0)" % v.name      # arrays are not integers
             if v.kind == "field" and v.fkind in ("struct", "pstruct"):
@@ -213,6 +257,8 @@ class DepsModules:
             return ":param"
         if v.kind == "value":
             return ":enum"
+        if v.fkind == "synthetic":
+            return ":synth" if self.is_local(u, v) else ":static-synth"
         if not self.is_local(u, v):
             return ":static"
         if v.fkind in ("struct", "pstruct"):
@@ -230,7 +276,9 @@ class DepsModules:
     def render_struct(self, L, m, sname, params, fields):
         r = self.rng
         plist = "(%s)" % ", ".join("%s: UInt:8" % p.name for p in params) if params else ""
-        L.append("struct %s%s:" % (sname, plist))
+        bits = self.bits[(m, sname)]
+        L.append("%s %s%s:" % ("bits" if bits else "struct", sname, plist))
+        size_deps_all = []      # what $size_in_* mentions: conditions, starts and sizes of the physical fields
         if r.random() < 0.3:
             # attributes are not dependencies: may mention anything, adds no edge
             some = r.sample(fields, min(len(fields), r.randint(1, 2)))
@@ -286,7 +334,10 @@ class DepsModules:
                 st = self.sum_of(f, slots["start"], off if not slots["start"] else 0)
                 start_deps = list(slots["start"])
             size_deps = []
-            if f.fkind == "int":
+            if f.fkind == "int" and bits:
+                L.append("%s%s [+4]  UInt  %s" % (ind, st, f.name))
+                off += 4
+            elif f.fkind == "int":
                 L.append("%s%s [+1]  UInt  %s" % (ind, st, f.name))
                 if r.random() < 0.2:
                     L.append("%s  [requires: this < 200]" % ind)
@@ -316,6 +367,14 @@ class DepsModules:
             for d in start_deps + size_deps:
                 if d not in prev_loc:
                     prev_loc.append(d)
+            for d in slots["cond"] + start_deps + size_deps:
+                if d not in size_deps_all:
+                    size_deps_all.append(d)
+        sz, mx, mn = self.synth[(m, sname)]
+        sz.final = size_deps_all
+        sz.labels = [(d, "synth-size" + self.qualifier(sz, d)) for d in size_deps_all]
+        mx.final, mn.final = [sz], [sz]
+        mx.labels, mn.labels = [(sz, "synth-max")], [(sz, "synth-min")]
 
     def text_of(self, m):
         r = self.rng
@@ -385,10 +444,11 @@ class DepsModules:
         for (m, sname, params, fields) in self.structs:
             if m not in mods:
                 continue
+            allf = list(fields) + self.synth[(m, sname)]     # the generated fields are appended in this order
             local = []
-            for f in fields:
+            for f in allf:
                 local.append({d.name for d in f.final if self.is_local(f, d)})
-            out.append(((self.files[m], sname), [f.name for f in fields], local, [p.name for p in params]))
+            out.append(((self.files[m], sname), [f.name for f in allf], local, [p.name for p in params]))
         return out
 
     def edge_labels(self):
